@@ -98,6 +98,16 @@ func FindGrouping(n Node, name string, seen map[string]bool) *Grouping {
 				}
 			}
 		}
+		// A submodule also sees the groupings of the module it belongs to
+		// and of that module's other submodules (RFC 7950, section 5.1).
+		if m, ok := n.(*Module); ok && !strings.Contains(name, ":") {
+			if owner := belongingModule(m); owner != nil && !seen[owner.Name] {
+				seen[owner.Name] = true
+				if g := FindGrouping(owner, name, seen); g != nil {
+					return g
+				}
+			}
+		}
 		n = n.ParentNode()
 	}
 	return nil
